@@ -375,4 +375,37 @@ def endBlock (s : Sky) (power : Nat → Nat) (total : Nat) (ef : EventFault) (no
 /-- what the bank reports as supply of the bridged denom -/
 def Sky.supply (s : Sky) : Nat := s.b.funded + s.o.minted - s.b.burned
 
+/-! ## Who casts a vote: the claim message
+
+  x/skyway/keeper/msg_server.go   SendToPalomaClaim, BatchSendToRemoteClaim, LightNodeSaleClaim:
+                                  checkOrchestratorIsCreator, checkOrchestratorValidatorInSet, then (batch
+                                  claims) additionalPatchChecks, then claimHandlerCommon → Attest
+
+Everything above starts at `Attest`, with the voting validator as an argument. A validator does not call
+`Attest`: an ACCOUNT sends a claim message. Accounts are naturals; a validator is identified with its
+orchestrator account (`GetOrchestratorValidator`: the validator whose operator address has the account's
+bytes), so validator `v` has account `v` and every other number is an account that is no validator.
+`creator` is `Metadata.Creator`, the account the transaction was authenticated for (the ante handler: signed
+by that account, or by an account holding its fee grant — C03's subject). `orch` is the `Orchestrator`
+field of the message body: text chosen by whoever builds the message, and the validator `Attest` records
+the vote for. `bonded` are the validators of the active set (`checkOrchestratorValidatorInSet`). -/
+
+/-- the gate the three claim handlers put in front of `Attest`: the orchestrator named in the message is
+the authenticated creator, and it is a bonded validator -/
+def claimGate (bonded : List Nat) (creator orch : Nat) : Bool := creator == orch && bonded.contains orch
+
+/-- `SendToPalomaClaim` / `LightNodeSaleClaim` (a light-node sale mints nothing: `amount = 0`) delivered
+for account `creator`, naming `orch` -/
+def voteMsg (bonded : List Nat) (s : St) (creator orch n h eth : Nat) (applicable : Bool) (amount : Nat := 0)
+    (compass : Nat := 0) : St × Res :=
+  if creator ≠ orch then (s, .rejected) else          -- checkOrchestratorIsCreator
+  if !bonded.contains orch then (s, .rejected) else   -- checkOrchestratorValidatorInSet
+  vote s orch n h eth applicable amount compass
+
+/-- `BatchSendToRemoteClaim` delivered for account `creator`, naming `orch` -/
+def voteExecMsg (bonded : List Nat) (s : Sky) (creator orch n h eth id compass : Nat) : Sky × Res :=
+  if creator ≠ orch then (s, .rejected) else
+  if !bonded.contains orch then (s, .rejected) else
+  voteExec s orch n h eth id compass
+
 end Paloma.Oracle
